@@ -551,7 +551,7 @@ class HistogramND(HistogramBase):
             data=data, binnings=binnings, weights=weights, dtype=dtype
         )
         if "missed" not in kwargs:
-            kwargs["missed"] = missing
+            kwargs["missed"] = missing if kwargs.get("keep_missed", True) else 0
         if dtype is not None:
             kwargs["dtype"] = dtype
         return cls(
